@@ -1,9 +1,15 @@
+mod c48;
+mod c49;
 mod c50;
 use vkit::{Check, Level};
 fn main() {
     if std::env::args().nth(1).as_deref() == Some("--c50-child") {
         c50::child_main();
     }
-    let checks: &[Check] = &[Check { id: "C50", level: Level::Exploration, run: c50::run }];
+    let checks: &[Check] = &[
+        Check { id: "C48", level: Level::Exploration, run: c48::run },
+        Check { id: "C49", level: Level::ModelChecking, run: c49::run },
+        Check { id: "C50", level: Level::Exploration, run: c50::run },
+    ];
     vkit::main(checks);
 }
